@@ -357,7 +357,9 @@ def r6(ctx):
         for name, ty in _fields(ctx, adt):
             for d, bi, kind, sp in whomay.writers_of(ctx.facts, adt, name):
                 if kind != "construct" and not common.is_test(ctx.facts, d):
-                    owners.setdefault(whomay.owner_fn(d), set()).add(name)
+                    # (a private helper no rule names is read as part of the functions that call it - `update` split in two)
+                    for o in common.effective_owners(ctx.facts, d):
+                        owners.setdefault(o, set()).add(name)
         n += len(owners)
         for o, written in sorted(owners.items()):
             if o in accepted:
